@@ -120,12 +120,18 @@ impl<State: ExchangeData> IterationStateHandler<State> {
             unsafe {
                 self.state_ref.set(new_state);
             }
+            #[cfg(feature = "verif")]
+            crate::verif::emit(&crate::verif::Event::StateSet { coord: self.coord });
         }
+        #[cfg(feature = "verif")]
+        crate::verif::emit(&crate::verif::Event::BarrierEnter { coord: self.coord });
         // make sure that the state is set before any replica on this host is able to start again,
         // reading the old state
         self.state_barrier
             .get_or_create(|| Barrier::new(self.num_local_replicas))
             .wait();
+        #[cfg(feature = "verif")]
+        crate::verif::emit(&crate::verif::Event::BarrierExit { coord: self.coord });
 
         if self.is_local_leader {
             // now the state has been set, accessing it is safe again
